@@ -66,18 +66,8 @@ func execMultiplicativeExprDivide(context *exprContext, expr *grammar.Grammar) e
 		return err
 	}
 
-	if right == 0 {
-		if left == 0 {
-			context.result = Number(math.NaN())
-		} else if left > 0 {
-			context.result = Number(math.Inf(1))
-		} else {
-			context.result = Number(math.Inf(-1))
-		}
-
-		return nil
-	}
-
+	// IEEE 754 division already yields NaN and the correctly signed
+	// infinities for a zero divisor (the sign of a negative zero counts).
 	context.result = Number(left / right)
 	return nil
 }
